@@ -101,8 +101,111 @@ type c01PEMBody struct {
 	der   []byte
 }
 
-func c01GenPEM(c *Ctx, r *Rng, seeds []seedInput, add func(kind, name string, data []byte)) {
-	put := func(tag string, data []byte) { add("pem-"+tag+":pem", "f.pem", data) }
+// c01PEMBlockVariants: one PEM block (label and genuine DER body b) damaged in one place - boundary lines,
+// RFC 1421 headers, base64 body, the DER inside, what surrounds it.
+func c01PEMBlockVariants(b c01PEMBody, bodies []c01PEMBody) []c01Var {
+	var out []c01Var
+	put := func(tag string, data []byte) { out = append(out, c01Var{tag, data}) }
+	b64 := base64.StdEncoding.EncodeToString(b.der)
+	B, E := "-----BEGIN "+b.label+"-----", "-----END "+b.label+"-----"
+	build := func(begin string, headers []string, body []string, end string, eol string) []byte {
+		var sb strings.Builder
+		sb.WriteString(begin + eol)
+		for _, h := range headers {
+			sb.WriteString(h + eol)
+		}
+		for _, l := range body {
+			sb.WriteString(l + eol)
+		}
+		sb.WriteString(end + eol)
+		return []byte(sb.String())
+	}
+	wrap := func(n int) []string {
+		var out []string
+		s := b64
+		for len(s) > n {
+			out = append(out, s[:n])
+			s = s[n:]
+		}
+		return append(out, s)
+	}
+	std := wrap(64)
+	// encapsulation boundaries
+	for _, e := range []string{"", "-----END-----", "-----END " + b.label, "-----END " + b.label + "----", "-----END " + b.label + "------", "----END " + b.label + "-----", "-----END  " + b.label + "-----", "-----END " + strings.ToLower(b.label) + "-----",
+		"-----END X-----", "-----END CERTIFICATE-----", "-----END PRIVATE KEY-----", "-----BEGIN " + b.label + "-----", E + " ", " " + E, E + "x", "-----END " + b.label + "-----\r", "-----END"} {
+		if e != E {
+			put("end-line", build(B, nil, std, e, "\n"))
+		}
+	}
+	for _, bg := range []string{"-----BEGIN-----", "-----BEGIN " + b.label, "-----BEGIN " + b.label + "----", "-----BEGIN " + b.label + "------", "----BEGIN " + b.label + "-----", "------BEGIN " + b.label + "-----", "-----BEGIN  " + b.label + "-----", B + " ", " " + B, "x" + B, B + "x",
+		"-----begin " + b.label + "-----", "-----BEGIN " + b.label + "-----\r", "—–BEGIN " + b.label + "—–", "-----BEGIN " + b.label + "----- -----BEGIN " + b.label + "-----"} {
+		put("begin-line", build(bg, nil, std, E, "\n"))
+	}
+	// RFC 1421 headers
+	for _, hs := range [][]string{{"Proc-Type: 4,ENCRYPTED", "DEK-Info: AES-256-CBC,00112233445566778899AABBCCDDEEFF", ""}, {"Proc-Type: 4,ENCRYPTED", ""}, {"DEK-Info: DES-EDE3-CBC,0011223344556677", ""}, {"Proc-Type: 4,ENCRYPTED", "DEK-Info: AES-256-CBC,zz", ""},
+		{"Proc-Type: 4,ENCRYPTED"}, {"Proc-Type:4,ENCRYPTED", ""}, {"Proc-Type", ""}, {": value", ""}, {"Key:", ""}, {"Key: value"}, {"Key: value", " continued", ""}, {"Key: value", "\tcontinued", ""}, {"Comment: " + strings.Repeat("c", 70000), ""},
+		{"Subject: CN=x", "Issuer: CN=y", ""}, {"Bag Attributes", "    localKeyID: 01", "subject=/CN=x", ""}, {"\xff: \xfe", ""}, {"Key: v\r", "\r"}, {""}, {"", ""}, {"Key: value", "", "Other: value", ""},
+		func() []string { return append(strings.Split(strings.Repeat("H: v\n", 3000), "\n")[:3000], "") }()} {
+		put("header", build(B, hs, std, E, "\n"))
+	}
+	// base64 body
+	for _, n := range []int{1, 2, 3, 4, 63, 65, 76, 77, 1000, 100000} {
+		put("body-line-length", build(B, nil, wrap(n), E, "\n"))
+	}
+	for _, eol := range []string{"\r\n", "\r", "\n\n", " \n", "\t\n", "\n ", "\x00\n"} {
+		put("line-ends", build(B, nil, std, E, eol))
+	}
+	body := func(tag string, f func(b []string) []string) {
+		put("body-"+tag, build(B, nil, f(append([]string{}, std...)), E, "\n"))
+	}
+	last := len(std) - 1
+	body("none", func(b []string) []string { return nil })
+	body("blank-line-inside", func(b []string) []string { return append([]string{b[0], ""}, b[1:]...) })
+	body("bad-character", func(b []string) []string { b[0] = "*" + b[0][1:]; return b })
+	body("url-alphabet", func(b []string) []string { b[0] = "-_" + b[0][2:]; return b })
+	body("padding-inside", func(b []string) []string { b[0] = b[0][:4] + "==" + b[0][6:]; return b })
+	body("no-padding", func(b []string) []string { b[last] = strings.TrimRight(b[last], "="); return b })
+	body("extra-padding", func(b []string) []string { b[last] += "="; return b })
+	body("only-padding", func(b []string) []string { return []string{"===="} })
+	body("one-more-character", func(b []string) []string { b[last] = "A" + b[last]; return b })
+	body("spaces", func(b []string) []string { b[0] = " " + b[0] + " \t"; return b })
+	body("dashes-inside", func(b []string) []string { return append([]string{b[0], "-----"}, b[1:]...) })
+	body("begin-inside", func(b []string) []string { return append([]string{b[0], B}, b[1:]...) })
+	body("end-of-other-label-inside", func(b []string) []string { return append([]string{b[0], "-----END X-----"}, b[1:]...) })
+	body("checksum-line", func(b []string) []string { return append(b, "=AAAA") })
+	// cut DER under a correct frame
+	for _, l := range []int{1, 2, 3, 4, len(b.der) / 2, len(b.der) - 1} {
+		if l < len(b.der) {
+			put("der-cut", c01PEM(b.label, b.der[:l], 64, "\n"))
+		}
+	}
+	put("der-trailing-octet", c01PEM(b.label, c01Cat(b.der, []byte{0}), 64, "\n"))
+	put("der-twice", c01PEM(b.label, c01Cat(b.der, b.der), 64, "\n"))
+	// surroundings and several blocks
+	one := c01PEM(b.label, b.der, 64, "\n")
+	put("text-before", c01Cat([]byte("Certificate:\n    Data:\n        Version: 3 (0x2)\n"), one))
+	put("text-after", c01Cat(one, []byte("trailing text without newline")))
+	put("no-final-newline", one[:len(one)-1])
+	put("leading-bom", c01Cat([]byte("\xef\xbb\xbf"), one))
+	put("leading-space", c01Cat([]byte(" "), one))
+	put("leading-dashes", c01Cat([]byte("-----\n"), one))
+	put("begin-only", []byte(B+"\n"))
+	put("begin-and-body-only", build(B, nil, std, "", "\n"))
+	put("end-before-begin", c01Cat([]byte(E+"\n"), one))
+	for _, n := range []int{2, 3, 100} {
+		put("several-blocks", []byte(strings.Repeat(string(one), n)))
+	}
+	for _, o := range bodies {
+		put("two-kinds-of-blocks", c01Cat(one, c01PEM(o.label, o.der, 64, "\n")))
+	}
+	put("block-then-broken-block", c01Cat(one, []byte(B+"\n!!!!\n"+E+"\n")))
+	put("broken-block-then-block", c01Cat([]byte(B+"\n!!!!\n"+E+"\n"), one))
+	put("block-inside-block", build(B, nil, append(append([]string{std[0]}, strings.Split(strings.TrimRight(string(one), "\n"), "\n")...), std[1:]...), E, "\n"))
+	return out
+}
+
+// c01PEMBodies: one genuine DER body per PEM label the tool knows.
+func c01PEMBodies(r *Rng) []c01PEMBody {
 	cv := c01Curves()[0]
 	cert := c01Cert(c01Carrier(c01CarSPKI, cv, c01OID(cv.oid...)))
 	rsaN := r.Bytes(128)
@@ -111,11 +214,16 @@ func c01GenPEM(c *Ctx, r *Rng, seeds []seedInput, add func(kind, name string, da
 	pkcs1Priv := c01Seq(c01SmallInt(0), c01UInt(rsaN), c01SmallInt(65537), c01UInt(r.Bytes(128)), c01UInt(r.Bytes(64)), c01UInt(r.Bytes(64)), c01UInt(r.Bytes(64)), c01UInt(r.Bytes(64)), c01UInt(r.Bytes(64)))
 	dsaPriv := c01Seq(c01SmallInt(0), c01UInt(rsaN), c01UInt(r.Bytes(20)), c01UInt(r.Bytes(128)), c01UInt(r.Bytes(128)), c01UInt(r.Bytes(20)))
 	edBlob := c01Cat(c01Str([]byte("ssh-ed25519")), c01Str(r.Bytes(32)))
-	bodies := []c01PEMBody{
+	return []c01PEMBody{
 		{"CERTIFICATE", cert}, {"PUBLIC KEY", c01Carrier(c01CarSPKI, cv, c01OID(cv.oid...))}, {"PRIVATE KEY", c01Carrier(c01CarPKCS8, cv, c01OID(cv.oid...))},
 		{"EC PRIVATE KEY", c01Carrier(c01CarSEC1, cv, c01OID(cv.oid...))}, {"EC PARAMETERS", c01OID(cv.oid...)}, {"RSA PUBLIC KEY", pkcs1Pub}, {"RSA PRIVATE KEY", pkcs1Priv}, {"DSA PRIVATE KEY", dsaPriv},
 		{"OPENSSH PRIVATE KEY", c01Enc(c01OpenSSHEnvelope(r, edBlob, false))},
 	}
+}
+
+func c01GenPEM(c *Ctx, r *Rng, seeds []seedInput, add func(kind, name string, data []byte)) {
+	put := func(tag string, data []byte) { add("pem-"+tag+":pem", "f.pem", data) }
+	bodies := c01PEMBodies(r)
 	// every label around every genuine body (a key under the wrong label), and degenerate bodies under every label
 	for _, l := range c01PEMLabels {
 		for i, b := range bodies {
@@ -132,101 +240,9 @@ func c01GenPEM(c *Ctx, r *Rng, seeds []seedInput, add func(kind, name string, da
 		}
 	}
 	for _, b := range bodies {
-		b64 := base64.StdEncoding.EncodeToString(b.der)
-		B, E := "-----BEGIN "+b.label+"-----", "-----END "+b.label+"-----"
-		build := func(begin string, headers []string, body []string, end string, eol string) []byte {
-			var sb strings.Builder
-			sb.WriteString(begin + eol)
-			for _, h := range headers {
-				sb.WriteString(h + eol)
-			}
-			for _, l := range body {
-				sb.WriteString(l + eol)
-			}
-			sb.WriteString(end + eol)
-			return []byte(sb.String())
+		for _, v := range c01PEMBlockVariants(b, bodies) {
+			put(v.tag, v.data)
 		}
-		wrap := func(n int) []string {
-			var out []string
-			s := b64
-			for len(s) > n {
-				out = append(out, s[:n])
-				s = s[n:]
-			}
-			return append(out, s)
-		}
-		std := wrap(64)
-		// encapsulation boundaries
-		for _, e := range []string{"", "-----END-----", "-----END " + b.label, "-----END " + b.label + "----", "-----END " + b.label + "------", "----END " + b.label + "-----", "-----END  " + b.label + "-----", "-----END " + strings.ToLower(b.label) + "-----",
-			"-----END X-----", "-----END CERTIFICATE-----", "-----END PRIVATE KEY-----", "-----BEGIN " + b.label + "-----", E + " ", " " + E, E + "x", "-----END " + b.label + "-----\r", "-----END"} {
-			if e != E {
-				put("end-line", build(B, nil, std, e, "\n"))
-			}
-		}
-		for _, bg := range []string{"-----BEGIN-----", "-----BEGIN " + b.label, "-----BEGIN " + b.label + "----", "-----BEGIN " + b.label + "------", "----BEGIN " + b.label + "-----", "------BEGIN " + b.label + "-----", "-----BEGIN  " + b.label + "-----", B + " ", " " + B, "x" + B, B + "x",
-			"-----begin " + b.label + "-----", "-----BEGIN " + b.label + "-----\r", "—–BEGIN " + b.label + "—–", "-----BEGIN " + b.label + "----- -----BEGIN " + b.label + "-----"} {
-			put("begin-line", build(bg, nil, std, E, "\n"))
-		}
-		// RFC 1421 headers
-		for _, hs := range [][]string{{"Proc-Type: 4,ENCRYPTED", "DEK-Info: AES-256-CBC,00112233445566778899AABBCCDDEEFF", ""}, {"Proc-Type: 4,ENCRYPTED", ""}, {"DEK-Info: DES-EDE3-CBC,0011223344556677", ""}, {"Proc-Type: 4,ENCRYPTED", "DEK-Info: AES-256-CBC,zz", ""},
-			{"Proc-Type: 4,ENCRYPTED"}, {"Proc-Type:4,ENCRYPTED", ""}, {"Proc-Type", ""}, {": value", ""}, {"Key:", ""}, {"Key: value"}, {"Key: value", " continued", ""}, {"Key: value", "\tcontinued", ""}, {"Comment: " + strings.Repeat("c", 70000), ""},
-			{"Subject: CN=x", "Issuer: CN=y", ""}, {"Bag Attributes", "    localKeyID: 01", "subject=/CN=x", ""}, {"\xff: \xfe", ""}, {"Key: v\r", "\r"}, {""}, {"", ""}, {"Key: value", "", "Other: value", ""},
-			func() []string { return append(strings.Split(strings.Repeat("H: v\n", 3000), "\n")[:3000], "") }()} {
-			put("header", build(B, hs, std, E, "\n"))
-		}
-		// base64 body
-		for _, n := range []int{1, 2, 3, 4, 63, 65, 76, 77, 1000, 100000} {
-			put("body-line-length", build(B, nil, wrap(n), E, "\n"))
-		}
-		for _, eol := range []string{"\r\n", "\r", "\n\n", " \n", "\t\n", "\n ", "\x00\n"} {
-			put("line-ends", build(B, nil, std, E, eol))
-		}
-		body := func(tag string, f func(b []string) []string) {
-			put("body-"+tag, build(B, nil, f(append([]string{}, std...)), E, "\n"))
-		}
-		last := len(std) - 1
-		body("none", func(b []string) []string { return nil })
-		body("blank-line-inside", func(b []string) []string { return append([]string{b[0], ""}, b[1:]...) })
-		body("bad-character", func(b []string) []string { b[0] = "*" + b[0][1:]; return b })
-		body("url-alphabet", func(b []string) []string { b[0] = "-_" + b[0][2:]; return b })
-		body("padding-inside", func(b []string) []string { b[0] = b[0][:4] + "==" + b[0][6:]; return b })
-		body("no-padding", func(b []string) []string { b[last] = strings.TrimRight(b[last], "="); return b })
-		body("extra-padding", func(b []string) []string { b[last] += "="; return b })
-		body("only-padding", func(b []string) []string { return []string{"===="} })
-		body("one-more-character", func(b []string) []string { b[last] = "A" + b[last]; return b })
-		body("spaces", func(b []string) []string { b[0] = " " + b[0] + " \t"; return b })
-		body("dashes-inside", func(b []string) []string { return append([]string{b[0], "-----"}, b[1:]...) })
-		body("begin-inside", func(b []string) []string { return append([]string{b[0], B}, b[1:]...) })
-		body("end-of-other-label-inside", func(b []string) []string { return append([]string{b[0], "-----END X-----"}, b[1:]...) })
-		body("checksum-line", func(b []string) []string { return append(b, "=AAAA") })
-		// cut DER under a correct frame
-		for _, l := range []int{1, 2, 3, 4, len(b.der) / 2, len(b.der) - 1} {
-			if l < len(b.der) {
-				put("der-cut", c01PEM(b.label, b.der[:l], 64, "\n"))
-			}
-		}
-		put("der-trailing-octet", c01PEM(b.label, c01Cat(b.der, []byte{0}), 64, "\n"))
-		put("der-twice", c01PEM(b.label, c01Cat(b.der, b.der), 64, "\n"))
-		// surroundings and several blocks
-		one := c01PEM(b.label, b.der, 64, "\n")
-		put("text-before", c01Cat([]byte("Certificate:\n    Data:\n        Version: 3 (0x2)\n"), one))
-		put("text-after", c01Cat(one, []byte("trailing text without newline")))
-		put("no-final-newline", one[:len(one)-1])
-		put("leading-bom", c01Cat([]byte("\xef\xbb\xbf"), one))
-		put("leading-space", c01Cat([]byte(" "), one))
-		put("leading-dashes", c01Cat([]byte("-----\n"), one))
-		put("begin-only", []byte(B+"\n"))
-		put("begin-and-body-only", build(B, nil, std, "", "\n"))
-		put("end-before-begin", c01Cat([]byte(E+"\n"), one))
-		for _, n := range []int{2, 3, 100} {
-			put("several-blocks", []byte(strings.Repeat(string(one), n)))
-		}
-		for _, o := range bodies {
-			put("two-kinds-of-blocks", c01Cat(one, c01PEM(o.label, o.der, 64, "\n")))
-		}
-		put("block-then-broken-block", c01Cat(one, []byte(B+"\n!!!!\n"+E+"\n")))
-		put("broken-block-then-block", c01Cat([]byte(B+"\n!!!!\n"+E+"\n"), one))
-		put("block-inside-block", build(B, nil, append(append([]string{std[0]}, strings.Split(strings.TrimRight(string(one), "\n"), "\n")...), std[1:]...), E, "\n"))
 	}
 	put("many-begin-lines", []byte(strings.Repeat("-----BEGIN X-----\n", 20000)))
 	put("many-dashes", []byte(strings.Repeat("-", 200000)))
@@ -234,19 +250,23 @@ func c01GenPEM(c *Ctx, r *Rng, seeds []seedInput, add func(kind, name string, da
 }
 
 // ---------- authorized_keys / known_hosts lines (sshd(8) AUTHORIZED_KEYS FILE FORMAT, SSH_KNOWN_HOSTS FILE FORMAT) ----------
-func c01GenSSHLines(c *Ctx, r *Rng, blobs []c01Blob, add func(kind, name string, data []byte)) {
-	var keys []string // "type base64"
+// It returns the lines it damaged (key-type token, blob token, comment, separators, line shapes, options) and
+// the genuine "type base64" tokens, for the container families.
+func c01GenSSHLines(c *Ctx, r *Rng, blobs []c01Blob, add func(kind, name string, data []byte)) (bad []string, keys []string) {
 	for _, b := range blobs {
 		if b.typ == "ssh-ed25519" || b.typ == "ssh-rsa" || b.typ == "ecdsa-sha2-nistp256" || b.typ == "ssh-ed25519-cert-v01@openssh.com" {
 			keys = append(keys, b.typ+" "+base64.StdEncoding.EncodeToString(c01Enc(b.fields)))
 		}
 	}
 	if len(keys) == 0 {
-		return
+		return nil, nil
 	}
 	good := keys[0]
 	typ, b64 := strings.Fields(good)[0], strings.Fields(good)[1]
 	both := func(tag string, line string) {
+		if len(line) < 4096 {
+			bad = append(bad, line)
+		}
 		ctx := good + " first@host\n" + line + "\n" + keys[len(keys)-1] + " last@host\n"
 		add("ssh-line-"+tag+":ssh", "authorized_keys", []byte(line+"\n"))
 		add("ssh-line-"+tag+":ssh", "authorized_keys", []byte(ctx))
@@ -278,6 +298,9 @@ func c01GenSSHLines(c *Ctx, r *Rng, blobs []c01Blob, add func(kind, name string,
 		"from=\"*.example.com,!bad.example.com\"", "environment=\"A=B\",environment=\"C=D\"", "command=\"has " + good + " inside\"", "tunnel=\"0\"", "expiry-time=\"20990101\"", "cert-authority", "principals=\"a,b\"", "permitopen=\"host:1\"",
 		"command=\"" + strings.Repeat("x", 100000) + "\"", strings.TrimRight(strings.Repeat("no-pty,", 5000), ","), "command=\"tab\there\"", "command=\"nl\\nhere\"", "ssh-rsa", "ssh-ed25519", "command=\"\\\"", "command=\"\\\\\"", "opt\x00ion", "\xff"} {
 		line := o + " " + good + " c"
+		if len(line) < 4096 {
+			bad = append(bad, line)
+		}
 		add("ssh-authorized-keys-options:ssh", "authorized_keys", []byte(line+"\n"))
 		add("ssh-authorized-keys-options:ssh", "authorized_keys", []byte(good+" a\n"+line+"\n"+good+" b\n"))
 		add("ssh-authorized-keys-options:ssh", "id.pub", []byte(line+"\n"))
@@ -312,4 +335,5 @@ func c01GenSSHLines(c *Ctx, r *Rng, blobs []c01Blob, add func(kind, name string,
 			add("ssh-file-shape:ssh", name, []byte(f))
 		}
 	}
+	return bad, keys
 }
